@@ -10,13 +10,17 @@ NOTES = ['Douglas-Peucker: the float instance of the generic model is compared d
          'positive tolerances; tracks of at least 2 fixes']
 
 
-def mktrack(pts):
+def mktrack(pts, tmode='inc'):
+    # the height carries the identity of the fix (simplification is planimetric); the timestamps are increasing, all equal (a file without
+    # time column), decreasing (a reversed track) or out of order: simplification must not look at them
     from tracklib.core import ObsTime, ENUCoords, Obs, Track
-    return Track([Obs(ENUCoords(x, y, 0), ObsTime.readUnixTime(i)) for i, (x, y) in enumerate(pts)])
+    n = len(pts)
+    stamp = lambda i: {'inc': i, 'equal': 0, 'dec': n - i, 'shuffle': (i * 7) % 5}[tmode]
+    return Track([Obs(ENUCoords(x, y, float(i)), ObsTime.readUnixTime(stamp(i))) for i, (x, y) in enumerate(pts)])
 
 
 def kept(out):
-    return [int(out.getObs(i).timestamp.toAbsTime()) for i in range(out.size())]
+    return [int(out.getObs(i).position.getZ()) for i in range(out.size())]
 
 
 def seg_dist(p, a, b):
@@ -52,7 +56,7 @@ def shrink(case):
     pts = case['pts']
     if len(pts) > 3:
         for i in range(len(pts)):
-            yield {'pts': pts[:i] + pts[i + 1:], 'eps': case['eps']}
+            yield dict(case, pts=pts[:i] + pts[i + 1:])
 
 
 def gen_pts(rng, sc, n, dyadic):
@@ -108,14 +112,14 @@ def gen_dp(rng, n, tier):
             cands += [max(xs) - min(xs), max(ys) - min(ys), math.hypot(max(xs) - min(xs), max(ys) - min(ys))]
             c = rng.choice([v for v in cands if v > 0] or [sc])
             eps = c * rng.choice([0.9, 0.99, 1.01, 1.1, 1.2, 1.35])
-        out.append({'pts': pts, 'eps': eps})
+        out.append({'pts': pts, 'eps': eps, 'tmode': rng.choice(['inc', 'inc', 'equal', 'dec', 'shuffle'])})
     return out
 
 
 def run_dp(case):
     import sys, tracklib.algo.simplification
     sp = sys.modules['tracklib.algo.simplification']
-    tr = mktrack(case['pts'])
+    tr = mktrack(case['pts'], case.get('tmode', 'inc'))
     out = sp.simplify(tr, case['eps'], sp.MODE_SIMPLIFY_DOUGLAS_PEUCKER)
     return {'kept': kept(out), 'src': tr.size()}
 
@@ -196,14 +200,14 @@ def gen_vis(rng, n, tier):
     for _ in range(n):
         k = rng.randint(2, 12)
         pts = gen_pts(rng, rng.choice([1, 0.25, 0.5]), k, True)
-        out.append({'pts': pts, 'eps': rng.choice([0.125, 0.5, 1, 2, 4, 8, 32, 1024])})
+        out.append({'pts': pts, 'eps': rng.choice([0.125, 0.5, 1, 2, 4, 8, 32, 1024]), 'tmode': rng.choice(['inc', 'inc', 'equal', 'dec', 'shuffle'])})
     return out
 
 
 def run_vis(case):
     import sys, tracklib.algo.simplification
     sp = sys.modules['tracklib.algo.simplification']
-    tr = mktrack(case['pts'])
+    tr = mktrack(case['pts'], case.get('tmode', 'inc'))
     out = sp.simplify(tr, case['eps'], sp.MODE_SIMPLIFY_VISVALINGAM)
     return {'kept': kept(out), 'src': tr.size(), 'names': out.getListAnalyticalFeatures()}
 
